@@ -12,6 +12,7 @@ import (
 	"sync"
 	"time"
 
+	"github.com/samber/lo"
 	"github.com/samber/ro"
 
 	"verif/harness/internal/cat"
@@ -33,6 +34,7 @@ type ROutcome struct {
 }
 
 type RCase struct {
+	Open     bool       `json:"open"` // the first attempt emits a value and never ends; the pipeline is cut by a downstream Take(1) (C14)
 	O        ROp        `json:"o"`
 	Outs     []ROutcome `json:"outs"`
 	Conds    []bool     `json:"conds"`
@@ -150,9 +152,12 @@ func (a *attempts) source(fixed int) ro.Observable[any] {
 			if a.c.CancelAt == n && a.cancel != nil {
 				a.cancel()
 			}
-			if oc.End == "E" {
+			switch oc.End {
+			case "E":
 				dest.ErrorWithContext(ctx, attemptErr[n])
-			} else {
+			case "O":
+				// never ends: the subscription stays open until somebody releases it
+			default:
 				dest.CompleteWithContext(ctx)
 			}
 		}
@@ -250,6 +255,8 @@ func buildResubOp(c *RCase, a *attempts) (opFn, ro.Observable[any], error) {
 			all = append(all, a.source(k))
 		}
 		return nil, ro.Concat(all...), nil
+	case "SubscribeOn":
+		return ro.SubscribeOn[any](2), a.source(1), nil
 	case "ConcatWith":
 		var rest []ro.Observable[any]
 		for k := 2; k <= c.O.M; k++ {
@@ -272,10 +279,16 @@ func ReplayResub(idx int, c *RCase, mode string, out *[]Mismatch) {
 	base, cancel := context.WithCancel(context.WithValue(context.Background(), rec.KeySub, true))
 	defer cancel()
 	a.cancel = cancel
+	if c.Open && mode != "sync" && mode != "async" {
+		return
+	}
 	o, err := buildResub(c, a)
 	if err != nil {
 		add("catalogue", err.Error())
 		return
+	}
+	if c.Open {
+		o = ro.Take[any](1)(o) // the early-terminating downstream
 	}
 	if a.started != 0 {
 		add("sub", "a source was subscribed at construction time")
@@ -341,7 +354,15 @@ func replayResubRound(c *RCase, a *attempts, o ro.Observable[any], base context.
 	var sub ro.Subscription
 	select {
 	case sub = <-done:
-	case <-time.After(10 * time.Second):
+	case <-time.After(lo.Ternary(c.Open, 1500*time.Millisecond, 10*time.Second)):
+		if c.Open {
+			// C14: the downstream completed on the value, yet the call that waits for the attempt inside the pipeline is still running
+			a.mu.Lock()
+			live := a.live
+			a.mu.Unlock()
+			add("blocked", fmt.Sprintf("downstream Take(1) completed on the first value of a never-ending attempt, but Subscribe is still running 1.5s later (%d attempt(s) still subscribed)", live))
+			return false
+		}
 		add("hang", "Subscribe did not return within 10s although every attempt ended")
 		return false
 	}
